@@ -816,9 +816,10 @@ class Machine:
             if abs(dc) > sl or sl == 0:
                 r = {'eq': dc == 0, 'ne': dc != 0, 'gt': dc > 0, 'ge': dc >= 0, 'lt': dc < 0, 'le': dc <= 0}[base]
                 return int(r)
-            # |difference| is inside the rounding band: both outcomes possible
-            return SymB(z3.BoolVal(True), z3.BoolVal(False))
-        if not s.opts.get('cancel', True): d = A.t - B.t
+            # |difference| is inside the rounding band: both outcomes possible -- decided (and remembered, so that comparing
+            # the same two values again, in either order, stays consistent) by the banded code below
+            d = rv(dc)
+        elif not s.opts.get('cancel', True): d = A.t - B.t
         if sl == 0:
             t = {'eq': d == 0, 'ne': d != 0, 'gt': d > 0, 'ge': d >= 0, 'lt': d < 0, 'le': d <= 0}[base]
             return SymB(t)
@@ -849,6 +850,9 @@ class Machine:
         else: b = SymB(z3.BoolVal(True), z3.Or(d > S, d < NS))
         r = s.decide(b)
         s.band_memo[(canon, ka, kb)] = (r == pos, A.t, B.t)      # keeps the terms (and their ids) alive
+        # antisymmetry: a < b decided one way fixes b <= a the other way (a real execution compares the same two doubles)
+        if canon == 'lt': s.band_memo.setdefault(('le', kb, ka), (not (r == pos), B.t, A.t))
+        elif canon == 'le': s.band_memo.setdefault(('lt', kb, ka), (not (r == pos), B.t, A.t))
         s.band_strict.append(b.must if r else z3.Not(b.t))
         return int(r)
         raise ExecError('fcmp ' + pred)
@@ -992,6 +996,7 @@ class Machine:
                 except ExecError: mdl = None; result = 'violation'
             if mdl is None and result != 'violation':
                 result = 'infeasible_over_integers'      # path exists only in the real relaxation
+                if os.environ.get('IRSYM_DEBUG'): print('DEBUG violation without integer model:', e.kind, e.msg, where[:300], flush=True)
             else:
                 s.violations.append((e.kind, e.msg, where, mdl))
                 result = 'violation'
